@@ -28,6 +28,18 @@ CHECKS["C14"] = dict(
     technique="TLA+ reference model enumerated by TLC, observations of the real code validated by TLC",
     design="7/C14")
 
+CHECKS["C02"] = dict(
+    category="model_checking",
+    text="ShellGrammar.tla is the grammar of the dialect annotated with skeleton markers; ShellGen.tla is a leftmost-derivation "
+         "machine explored by TLC: exhaustively for every derivation within a deviation budget (every production, every pair "
+         "of productions in every relative position; triples in the thorough tier) and by seeded simulation for long programs. "
+         "Each program is parsed by the real ParseCommands and every observation is validated by TLC against the derivation's "
+         "skeleton and the documented node shapes (ShellCheck.tla).",
+    note="Trusted: the grammar transcription and its marker annotations, the AST->skeleton projection (harness/proj), TLC. Word "
+         "forms come from pools (LeafParts, HereDocs), so character-level word structure beyond the pools is not covered here.",
+    technique="TLA+ grammar/derivation model explored by TLC (BFS + simulation), parser observations validated by TLC",
+    design="7/C02")
+
 NOT_APPLICABLE = {}
 
 ALL = ["C%02d" % i for i in range(1, 21)]
